@@ -33,6 +33,8 @@ JOIN_ATTRS = {
     'group.dept.name': (21, 'str', False), 'group.dept.code': (22, 'int', True), 'group.dept.open': (23, 'bool', False),
 }
 ATTRS.update(JOIN_ATTRS)
+# pseudo attribute of the collection harness (tools/c01_coll.py, coq/Model/C01Coll.v): the value of a count-subquery
+ATTRS['group.cnt'] = (30, 'int', False)
 BY_ID = {v[0]: k for k, v in ATTRS.items()}
 
 
